@@ -82,6 +82,15 @@ func dnskeyMaterialFP(k *dns.DNSKEY) string {
 	return fmt.Sprintf("%d|%d|%s", k.Algorithm, k.Protocol, k.PublicKey)
 }
 
+// dnskeyRecordFP identifies one DNSKEY record: its key material together with
+// its flags, so the revoked form of a key is not the key itself.
+func dnskeyRecordFP(k *dns.DNSKEY) string {
+	if k == nil {
+		return ""
+	}
+	return fmt.Sprintf("%d|%s", k.Flags, dnskeyMaterialFP(k))
+}
+
 func (s State) String() string {
 	switch s {
 	case StateStart:
@@ -327,10 +336,16 @@ func (r *Resolver) AutoTA() {
 	}
 
 	kskFetched := make(TrustAnchors)
+	// fetchedRecords identifies every fetched KSK by the record itself. The
+	// "is this tracked key still in the zone" decisions below must not be
+	// taken from kskFetched: that map is indexed by the 16-bit key tag, and
+	// a different key that merely shares the tag would stand in for it.
+	fetchedRecords := make(map[string]struct{})
 
 	for _, rr := range resp.Answer {
 		if dnskey, ok := rr.(*dns.DNSKEY); ok {
 			if dnskey.Flags&DNSKEYFlagKSK != 0 {
+				fetchedRecords[dnskeyRecordFP(dnskey)] = struct{}{}
 				keyTag := dnssec.KeyTag(dnskey)
 				ta := &TrustAnchor{
 					DNSKey: dnskey,
@@ -460,7 +475,7 @@ func (r *Resolver) AutoTA() {
 	// keys or to adjacent state changes.
 	if !revocationOnly {
 		for tag, ta := range kskCurrent {
-			if kskFetched[tag] == nil {
+			if _, present := fetchedRecords[dnskeyRecordFP(ta.DNSKey)]; !present {
 				// RFC 5011 §4 state table: the KeyRem event's effect
 				// depends on the prior state.
 				switch ta.State {
